@@ -26,6 +26,8 @@ PROP = {
             "bin": "mirrorsim", "pkg": "tm/tmengine/internal/tmmirror", "inject": [("mirrorsim", "tm/tmengine/internal/tmmirror")],
             "tests": [
                 {"name": "TestVerifC09MirrorHostile", "quick": 1000, "thorough": 160000, "shards": {"thorough": 16}, "salt": 2},
+                # thorough only: the hostile histories compiled with the data race detector
+                {"name": "TestVerifC09MirrorHostileDetector", "thorough": 6000, "shards": {"thorough": 8}, "salt": 6, "race": True, "env": {"GORACE": "halt_on_error=1"}},
             ],
         },
     ],
@@ -33,7 +35,7 @@ PROP = {
 CLAIM = {
     "engine": "rapid-direct + synctest",
     "technique": "property-based testing (rapid) of constructor option lists against an independent option model inside testing/synctest bubbles + exhaustive enumeration of result values through both feedback mappers",
-    "text": "Constructor part: generated option lists for tmengine.New and tmengine.NewMirror (every documented With* option; value classes valid / nil / buffered / unbuffered / non-empty / real-or-nop watchdog / genesis without validators; omitted; duplicated; any order; fresh or already initialised stores; consumers of the metrics and lag channels reading or never reading) are interpreted against the real constructors on the test goroutine inside a synctest bubble. Oracle: no panic; an independent last-write-wins model of the options says which documented-required options are missing and which values the option docs reject, and the result must be (instance, nil) exactly when that set is empty, else (nil, err) with err naming every such option and no valid one; an accepted instance must answer HandleProposedHeader / HandlePrevoteProofs with a defined result before a fake-time deadline, survive a fake-time advance, and return from Wait after the context is cancelled (decided by a fake-time timer and synctest deadlock detection, never the wall clock). Mapper part: every uint8 value of both result types through both shipped mappers and all three methods; every declared constant that mirror.go returns must map to a defined gexchange.Feedback without panicking. Message part (mirrorsim, TestVerifC09MirrorHostile): generated hostile histories against one real Mirror - proposed headers / votes at relative heights -2..+3 and rounds -1..+3 with every content, certificate and signature corruption variant, replayed headers of every variant (incl. foreign public keys and forged next lists), state machine entrances and actions, fetch answers, stalled consumers, concurrent groups, restarts; every call has a fake-time deadline and a poll-counting context (livelock), every result must be a defined constant that the shipped feedback mappers map, the node keeps serving its views, and a block that holds >= 1/3 of the votes of the voting round without its header must have a fetch request the node still waits for. Exploration of a finite-but-large configuration space for the constructors; exhaustive for the mappers.",
+    "text": "Constructor part: generated option lists for tmengine.New and tmengine.NewMirror (every documented With* option; value classes valid / nil / buffered / unbuffered / non-empty / real-or-nop watchdog / genesis without validators; omitted; duplicated; any order; fresh or already initialised stores; consumers of the metrics and lag channels reading or never reading) are interpreted against the real constructors on the test goroutine inside a synctest bubble. Oracle: no panic; an independent last-write-wins model of the options says which documented-required options are missing and which values the option docs reject, and the result must be (instance, nil) exactly when that set is empty, else (nil, err) with err naming every such option and no valid one; an accepted instance must answer HandleProposedHeader / HandlePrevoteProofs with a defined result before a fake-time deadline, survive a fake-time advance, and return from Wait after the context is cancelled (decided by a fake-time timer and synctest deadlock detection, never the wall clock). Mapper part: every uint8 value of both result types through both shipped mappers and all three methods; every declared constant that mirror.go returns must map to a defined gexchange.Feedback without panicking. Message part (mirrorsim, TestVerifC09MirrorHostile): generated hostile histories against one real Mirror - proposed headers / votes at relative heights -2..+3 and rounds -1..+3 with every content, certificate and signature corruption variant, replayed headers of every variant (incl. foreign public keys and forged next lists), state machine entrances and actions, fetch answers, stalled consumers, concurrent groups, restarts; every call has a fake-time deadline and a poll-counting context (livelock), every result must be a defined constant that the shipped feedback mappers map, the node keeps serving its views, and a block that holds >= 1/3 of the votes of the voting round without its header must have a fetch request the node still waits for; the thorough tier repeats these histories in a -race build. Exploration of a finite-but-large configuration space for the constructors; exhaustive for the mappers.",
     "design_ref": "DESIGN.md section 4 C09, Appendix A rows A12 and A23",
     "note": "Crash and wedge sites that are listed findings (C09-A7/A9/A11/A23/A25/A26/A27) are excluded by construction; the state-machine and engine halves of the property are exercised by the C08/C02 (smsim) and C03 (netsim) units, whose process deaths are reported under those ids.",
 }
